@@ -1047,6 +1047,9 @@ func (w *world) reconcile(p string, mode string) map[string]any {
 	}
 	if mode == "panic" && bindFailed {
 		w.panics++
+		if w.sc.Req[p] < 100 { // no rollback after a recovered panic: the group labels stay (counted like a failed rollback)
+			w.leaks++
+		}
 	}
 	rq := 0
 	if res.RequeueAfter > 0 {
@@ -1286,7 +1289,7 @@ func runScenario(sc scenario, pods []string, tw *tracefmt.Writer, rnd *rand.Rand
 		add(step{N: "NodeAdded"}, 3)
 		for _, p := range pods {
 			add(step{N: "BinderAttempt", P: p, Out: "fail"}, 6)
-			if w.panics < 6 && !w.terminal(p) { // the environment of the model: see PanicEnabled in spec/Handoff.tla
+			if w.panics < 6 && !w.terminal(p) && (w.sc.Req[p] >= 100 || w.leaks < 3) { // the environment of the model: see PanicEnabled in spec/Handoff.tla
 				add(step{N: "BinderAttempt", P: p, Out: "panic"}, 3)
 			}
 			if w.refusals < 3 {
